@@ -165,7 +165,7 @@ func ValidateCEL(input registry.ValidatorInput) validator.Validator {
 		return nil
 	}
 
-	return &celValidator{
+	v := &celValidator{
 		pass:       input.Pass,
 		field:      input.Field,
 		expression: celExpression,
@@ -173,6 +173,14 @@ func ValidateCEL(input registry.ValidatorInput) validator.Validator {
 		ruleName:   input.RuleName,
 		parentPath: input.ParentPath,
 	}
+
+	// An expression that cannot be translated must stop the generation: the fallback check emitted by
+	// Validate() always passes, which would silently disable the rule.
+	if _, err := v.convertCELToGo(celExpression, v.FieldName()); err != nil {
+		panic(fmt.Sprintf("govalid: cel marker on field %s.%s: %v", input.StructName, v.FieldName(), err))
+	}
+
+	return v
 }
 
 // convertCELToGo converts a CEL expression to equivalent Go code.
